@@ -39,7 +39,7 @@ fn main() {
             .iter()
             .map(|e| Event::from_json(e).unwrap_or_else(|| machinery("replay: bad event")))
             .collect();
-        let select = Select { only_phase: r["phase"].as_str().map(|s| s.to_string()) };
+        let select = Select { only_phase: r["phase"].as_str().map(|s| s.to_string()), lite: false };
         let want = doc["signature"].as_str().unwrap_or("").to_string();
         let rep = run_one(&tables, root, &history, &select);
         for m in &rep.machinery {
@@ -67,9 +67,9 @@ fn main() {
         run.finish();
     }
 
-    let max_depth: usize = std::env::var("C14_DEPTH").ok().and_then(|s| s.parse().ok()).unwrap_or(run.tier.pick(3, 4));
+    let max_depth: usize = std::env::var("C14_DEPTH").ok().and_then(|s| s.parse().ok()).unwrap_or(run.tier.pick(3, 8));
     let roots = [Root::Admin, Root::Loopback, Root::AdminAB];
-    let select = Select::default();
+    let select = Select { only_phase: None, lite: run.tier == vcore::Tier::Quick };
     let threads = util::n_threads();
 
     let mut visited: BTreeSet<String> = BTreeSet::new();
@@ -83,6 +83,7 @@ fn main() {
     let mut ok_methods: BTreeSet<String> = BTreeSet::new();
     let mut without_params: BTreeSet<String> = BTreeSet::new();
     let mut reject_shapes: BTreeSet<String> = BTreeSet::new();
+    let mut path_level_shapes: BTreeSet<String> = BTreeSet::new();
     let mut machinery_msgs: Vec<String> = Vec::new();
     let mut per_depth: Vec<Value> = Vec::new();
     let mut completed_depth: Option<usize> = None;
@@ -118,6 +119,7 @@ fn main() {
             ok_methods.extend(rep.ok_methods.iter().cloned());
             without_params.extend(rep.methods_without_params.iter().cloned());
             reject_shapes.extend(rep.reject_shapes.iter().cloned());
+            path_level_shapes.extend(rep.path_level_shapes.iter().cloned());
             machinery_msgs.extend(rep.machinery.iter().cloned());
             if !rep.samples.is_empty() {
                 samples.entry(rep.canon.clone()).or_default().extend(rep.samples.iter().cloned());
@@ -166,6 +168,7 @@ fn main() {
     run.set("methods_root", json!(tables.root.iter().map(|(k, v)| format!("{k}:{}", v.as_str())).collect::<Vec<_>>()));
     run.set("methods_db", json!(tables.db.iter().map(|(k, v)| format!("{k}:{}", v.as_str())).collect::<Vec<_>>()));
     run.set("distinct_rejection_responses", json!(reject_shapes));
+    run.set("path_level_answers", json!(path_level_shapes));
     if !without_params.is_empty() {
         run.cap_hit(&format!("methods without hand-written params (sent with generic params): {without_params:?}"));
     }
@@ -192,10 +195,11 @@ fn main() {
          (per database: absent/open-warm/open-cold/closed, bound token, tokens issued). At every state the full matrix \
          GET / + POST / + POST /{11 target spellings} x every method of both scraped tables and 3 unknown names x {minimal, malformed params} \
          + 6 body probes x {CBOR, JSON} x every principal (none, 3 garbage, 3 malformed headers, admin, every issued token and one unissued per database, \
-         hash of the bound token) is sent through build_router(..).oneshot on fresh replays of the history. distinct = (access class, principal kind, \
+         hash of the bound token; quick tier: 1 garbage and 1 malformed header, and minimal-params bodies + probes only on the two path-level targets) is sent through build_router(..).oneshot on fresh replays of the history. distinct = (access class, principal kind, \
          target class incl. database status/binding, encoding, body, variant)",
     );
     run.assume("the object store is CtlStore over InMemory; one request at a time (no concurrent requests); response headers, status and body are the whole observable (no timing)");
+    run.assume("histories that reach the same canonical control state are merged: the first-reached history is the one executed on the server (its event outcomes, db.list and the persisted key hashes are compared with the model)");
     run.assume("effect labels are read from the source text of RootMethod::parse / DbMethod::parse (checked against the server's method_not_found answers)");
     run.assume("on a loopback instance (every caller is admin) the admin phase uses four principals (none, garbage, non-UTF-8 header, the admin token) and mutating methods are sent by the first of them only");
     if !machinery_msgs.is_empty() && run.violation_count() == 0 {
